@@ -61,6 +61,11 @@ def odd_requests(bolt11):
     out.append(request(payload(), phash(0), 5, 100, 50, 1, forward=5))
     out.append(request(payload(raw_meta=tlv([(33001, b"\xff\xfe")])), phash(0), 5, 100, 50, 1, forward=5))
     out.append(request(payload(raw_meta=tlv([(33001, b"lnbc1qqq")])), phash(0), 5, 100, 50, 1, forward=5))
+    # invoice records that are no invoice at all: empty, one byte, two bytes, a multi-byte character first (in and out of the
+    # length-prefixed form), alone and next to an amount record
+    for sv in (b"", b"l", b"L", b"ln", b"LN", b"lx", "\u20acnbc1".encode(), "l\u20ac".encode(), "\u00e9".encode(), b"\xc3", b" ", b"\x00"):
+        out.append(request(payload(raw_meta=tlv([(33001, sv)])), phash(0), 5, 100, 50, 1, forward=5))
+        out.append(request(payload(raw_meta=tlv([(33001, sv), (33003, tu64(1000))])), phash(0), 5, 100, 50, 1, forward=5))
     out.append(request(payload(raw_meta=tlv([(33003, tu64(7))])), phash(0), 5, 100, 50, 1, forward=5))
     out.append(request(payload(raw_meta=tlv([(1, b"a"), (33001, bolt11.encode())])), phash(0), 5, 100, 50, 1, forward=5))
     out.append(request(payload(raw_meta=tlv([(33001, bolt11.encode()), (33001, b"second")])), phash(0), 5, 100, 50, 1, forward=5))
